@@ -76,6 +76,15 @@ func (v *VerifSession) State() (user string, usingGrant bool, actions []authgran
 	return v.s.user, v.s.usingAuthGrant, append([]authgrants.Authgrant(nil), v.s.authorizedActions...)
 }
 
+// DrainPty keeps the session's pty channel (capacity 1, normally read by a window-size tube)
+// empty, so that a second exec request of the same session does not block in startCodex.
+func (v *VerifSession) DrainPty() {
+	go func() {
+		for range v.s.pty {
+		}
+	}()
+}
+
 // StopMuxer stops the session's muxer (ends Start).
 func (v *VerifSession) StopMuxer() {
 	if v.s.tubeMuxer != nil {
